@@ -586,7 +586,10 @@ Inductive op :=
          the DialFailure event with the given error kind, or (None) ConnectionEstablished, accept
          and close *)
 | OPublicAdd (a : maddr)                                         (* PublicAddresses::add_address *)
-| OPublicRemove (a : maddr).                                     (* PublicAddresses::remove_address *)
+| OPublicRemove (a : maddr)                                      (* PublicAddresses::remove_address *)
+| ODialAddrRefused (a : maddr) (victims : list maddr).
+      (* dial_address(a) where the transport's dial() returns an error: the dial is not started, the
+         record stored beforehand "for possible future dials" stays as it is *)
 
 Inductive dial_result :=
 | DLimit                 (* no free outbound capacity *)
@@ -846,6 +849,13 @@ Definition step (c : cfg) (k : scorecfg) (st : state) (o : op) : state * out :=
           let sc := match res with Some e => error_score k e | None => sc_established k end in
           let '(s2, r2) := insert k s1 a sc (hd_error victims1) in
           (set_bk st (put q s2 b), RDialAddr (DAOk t q) (is_bad r1 || is_bad r2))
+      | v => (st, RDialAddr v false)
+      end
+  | ODialAddrRefused a victims =>
+      match dial_addr_check c st a with
+      | DAOk t q =>
+          let '(s1, r1) := insert k (get_or_empty q b) a 0 (hd_error victims) in
+          (set_bk st (put q s1 b), RDialAddr (DAOk t q) (is_bad r1))
       | v => (st, RDialAddr v false)
       end
   | OPublicAdd a =>
